@@ -500,6 +500,9 @@ def judge_call(gen, con, target, ident, method, args, result, frames, spec, cnt)
                 lim = ab["cool"]
             elif mode == "heat":
                 lim = ab["heat"]
+            elif mode == "auto":
+                # plain AUTO: the unit may heat or cool - every set-point admissible for either must pass unclamped (the union)
+                lim = (min(ab["cool"][0], ab["heat"][0]), max(ab["cool"][1], ab["heat"][1]))
             else:
                 # which limits apply in the other modes is not documented: the object's own current [min, max] is taken,
                 # provided each is one of the advertised limits
@@ -907,7 +910,7 @@ def judgement(ctx, thorough):
         "which power controls a generation offers at all (AirTouch 4: no away / sleep) and whether AirTouch 5 zones support TURBO is taken from the object's "
         "own supported_power_controls / supported_power_states (required to be the same for every AC / zone of the generation and to contain OFF, ON); "
         "AirTouch 4 zone TURBO support is judged against the turbo-support bit the console reported",
-        "limits in force: AirTouch 4 the single advertised pair; AirTouch 5 the cool pair in COOL, the heat pair in HEAT; in the other modes (not documented) "
+        "limits in force: AirTouch 4 the single advertised pair; AirTouch 5 the cool pair in COOL, the heat pair in HEAT, the union of both in plain AUTO; in the other modes (not documented) "
         "the object's own current [min, max] provided each is one of the advertised limits; limits with min <= max only",
         "rounding: any nearest multiple of the resolution of the double passed in; either neighbour when the double lies within 1e-9 of the midpoint (x.5 for AT4, x.x5 for AT5), so half-even and half-up are both accepted - the rule actually observed is in the distribution and the exact rule is fixed by the tie to the Lean model",
         "zone set-points the documented fields cannot express (AT4 outside 0..63, AT5 outside 10.0..35.0 after rounding) and durations outside [0, 24 h) are outside "
@@ -1010,10 +1013,26 @@ def full_stack(ctx, thorough):
                             ctx.count("full-stack:%s" % ("ok" if why is None else "differs"))
                             if why and worst is None:
                                 worst = (gen, sc, why, b)
+    # control calls made from INSIDE application callbacks (connection / AC subscribers of a console that pushes status changes)
+    base = fullstack.SCENARIOS["callbacks"]
+    for gen in (4, 5):
+        n_cb = len(fullstack.run(gen, base).get("baseline_callbacks", []))
+        for j in range(n_cb):
+            for what in ("toggle", "zone"):
+                sc = dict(base, callback_calls={j: what})
+                b = fullstack.run(gen, sc)
+                ctx.case(("full-stack-callback-call", gen, j, what))
+                why = _fs_judge(gen, b)
+                if not any(c[1] == what and c[0] != 170 for c in b["call_log"]) and b.get("init_result") is True and j > 0:
+                    why = why or "the control call made inside callback %d never started" % j
+                ctx.count("full-stack:callback-call:%s" % ("ok" if why is None else "differs"))
+                if why and worst is None:
+                    worst = (gen, sc, why, b)
     if worst:
         gen, sc, why, b = worst
         ctx.violation("C11:%d:full-stack:frames-per-call" % gen, "AirTouch %d over the real socket, link congested from tick 60 (faults %s), calls %s: %s" % (
-            gen, sc["faults"], sc["calls"], why), kind="history", level="full-stack", gen=gen, scenario={k: v for k, v in sc.items() if k != "inst"},
+            gen, sc["faults"], sc["calls"] + [("in callback %d" % k, v) for k, v in sc.get("callback_calls", {}).items()], why), kind="history", level="full-stack", gen=gen,
+            scenario={k: ({str(kk): vv for kk, vv in v.items()} if isinstance(v, dict) else v) for k, v in sc.items() if k not in ("inst", "err_text", "changes", "ac_state")},
             implementation_output=str([r for r in b["requests"] if r[0] >= 60]), spec_verdict=why)
 
 
@@ -1031,6 +1050,8 @@ def replay(ctx, data):
     if data.get("level") == "full-stack":
         import fullstack
         sc = dict(data["scenario"], inst=fullstack.INST)
+        if "callback_calls" in sc:
+            sc = dict(fullstack.SCENARIOS["callbacks"], callback_calls={int(k): v for k, v in sc["callback_calls"].items()})
         sc["calls"] = [(t, tuple(c) if isinstance(c, list) else c) for t, c in sc["calls"]]
         sc["faults"] = [tuple(f) for f in sc["faults"]]
         b = fullstack.run(data["gen"], sc)
